@@ -1084,13 +1084,31 @@ func c14BoundedSource(run *evid.Run, i int, j *Journal) {
 				return
 			}
 		}
-		if _, err := src.Join(feed, n); err != nil {
-			run.Violate("C14/join-error", det("kind", "bounded-source"), wit(fmt.Sprintf("round %d refresh", r)), "size-bounded refresh of the source failed: %v", err)
+		// (every merge under the state-based deadlock classifier: a lock leaked by a READ of an empty log shows here)
+		guarded := func(what string, fn func() error) bool {
+			var err error
+			okg, deadg, dumpg := guardCall(func() { err = fn() }, 120*time.Second)
+			if !okg {
+				if deadg {
+					wt := wit(fmt.Sprintf("round %d %s", r, what))
+					wt["blocked_goroutines"] = dumpg
+					run.Violate("C14/deadlock", det("kind", "bounded-source", "phase", what), wt, "%s never returned: every goroutine inside the library is waiting (%s)", what, label)
+				} else {
+					run.Inconclusive("bounded-source " + what + " did not return: " + label)
+				}
+				return false
+			}
+			if err != nil {
+				run.Violate("C14/join-error", det("kind", "bounded-source"), wit(fmt.Sprintf("round %d %s", r, what)), "%s failed: %v", what, err)
+				return false
+			}
+			return true
+		}
+		if !guarded("size-bounded refresh of the source", func() error { _, err := src.Join(feed, n); return err }) {
 			return
 		}
 		before, so := hx.Observe(dst), hx.Observe(src)
-		if _, err := dst.Join(src, -1); err != nil {
-			run.Violate("C14/join-error", det("kind", "bounded-source"), wit(fmt.Sprintf("round %d merge", r)), "merge from the bounded source failed: %v", err)
+		if !guarded("merge from the bounded source", func() error { _, err := dst.Join(src, -1); return err }) {
 			return
 		}
 		after := hx.Observe(dst)
